@@ -139,6 +139,13 @@ Definition kreduce_list f (l : list val) := fold_left (kreduce_upd f) l [].
 Definition proj (k : val) (l : list val) : list val :=
   map vsnd (filter (fun kv => veqb (vfst kv) k) l).
 
+(* per-key specification of keyed aggregation: fold of the key's own subsequence *)
+Definition kfold_spec init (acc : val -> val -> val) (k : val) (l : list val) (start : option val)
+  : option val :=
+  fold_left (fun o v => Some (acc (match o with None => init | Some a => a end) v)) (proj k l) start.
+Definition kreduce_spec f (k : val) (l : list val) (start : option val) : option val :=
+  fold_left (reduce_opt f) (proj k l) start.
+
 (* ------------------------------------------------------------------ DFIR operator state machines *)
 
 Inductive life := LTick | LStatic.
@@ -411,6 +418,31 @@ Definition C28_holds_b (f : flow) (bs : list env) (impl : list (list val)) : boo
 Definition chk28 (f : flow) (ticks : list (list (list val))) (impl : list (list val)) : N :=
   let bs := map mkenv ticks in
   verdict (ticks_agree (flow_exact f) impl (flow_run f bs)) (C28_holds_b f bs impl).
+
+(* C29 executable form: TotalOrder outputs are the denoted sequence; keyed aggregates hold, for
+   every key, the fold of that key's subsequence of the (ordered) input and no key twice *)
+Definition opt_eqb (a b : option val) : bool :=
+  match a, b with None, None => true | Some x, Some y => veqb x y | _, _ => false end.
+Definition entries_map (l : list val) : list (val * val) := map (fun e => (vfst e, vsnd e)) l.
+Fixpoint nodup_b (l : list val) : bool :=
+  match l with [] => true | x :: r => negb (memb x r) && nodup_b r end.
+Definition keyed_ok (spec : val -> option val) (input final : list val) : bool :=
+  nodup_b (map vfst final) &&
+  forallb (fun k => opt_eqb (klookup k (entries_map final)) (spec k)) (map vfst input ++ map vfst final).
+Definition C29_holds_b (f : flow) (bs : list env) (impl : list (list val)) : bool :=
+  match f with
+  | FS n => if ord n then list_eqb (concat impl) (den_s n (flat bs)) else true
+  | FA (AFoldKeyed init acc x) =>
+      let input := den_s x (flat bs) in
+      keyed_ok (fun k => kfold_spec init acc k input None) input (last impl [])
+  | FA (AReduceKeyed f x) =>
+      let input := den_s x (flat bs) in
+      keyed_ok (fun k => kreduce_spec f k input None) input (last impl [])
+  | FA a => equiv_b (aexact a) (last impl []) (den_a a (flat bs))
+  end.
+Definition chk29 (f : flow) (ticks : list (list (list val))) (impl : list (list val)) : N :=
+  let bs := map mkenv ticks in
+  verdict (ticks_agree (flow_exact f) impl (flow_run f bs)) (C29_holds_b f bs impl).
 
 (* multiset equality of operator-token lists (emission table vs the real emitter) *)
 Fixpoint scount (s : string) (l : list string) : nat :=
